@@ -31,7 +31,10 @@ def main():
             k += 1
             try:
                 if k % 50 == 0:
-                    hid = logger.add(lambda m: None, format="{message}", enqueue=cfg["enqueue"] and k % 100 == 0)
+                    # short-lived handlers are never enqueue ones: a child forked between this add() and the
+                    # remove() below would inherit a handler whose owner stops the worker at once, and the child's
+                    # complete() would wait for ever on it (no liveness is claimed for that, see C03 "expected hang")
+                    hid = logger.add(lambda m: None, format="{message}", enqueue=False)
                     logger.info("w%d-%d added" % (i, k))
                     logger.remove(hid)
                 else:
